@@ -9,8 +9,13 @@ package c05
 // map that follows it.
 
 import (
+	"io"
+	"net"
+	"time"
+
 	"bytes"
 	"fmt"
+	"github.com/whatap/golib/net/oneway"
 	"reflect"
 	"runtime"
 	"sync"
@@ -467,3 +472,122 @@ var specRewrite = pbt.Register(pbt.Spec[RewriteCase]{
 })
 
 func TestEncodeChangeEncode(t *testing.T) { specRewrite.Check(t) }
+
+// ---- frames of concurrent senders as the collector sees them -------------------------------------------------
+
+type ConcFrameCase struct {
+	Packs []gpack.Case `json:"packs"`
+	G     int          `json:"g"`
+}
+
+func runConcFrames(c ConcFrameCase) *pbt.Result {
+	gpack.ResetAux()
+	const lic = "license-for-concurrent-senders"
+	type item struct {
+		p     pack.Pack
+		frame []byte
+	}
+	items := make([]item, len(c.Packs))
+	want := map[string]int{}
+	total := 0
+	for i, pc := range c.Packs {
+		p, recs := build(pc)
+		w := ref.NewW()
+		w.I16(p.GetPackType())
+		w.Raw(refBody(p, recs))
+		f := ref.Frame(10, 0, p.GetPCODE(), ref.Hash64([]byte(lic)), w.B)
+		items[i] = item{p, f}
+		want[string(f)]++
+		total += len(f)
+	}
+	ln, err := net.Listen("tcp", "127.0.0.1:0")
+	if err != nil {
+		return pbt.Fail("harness cannot listen on loopback: %v", err)
+	}
+	defer ln.Close()
+	type rcv struct {
+		b   []byte
+		err error
+	}
+	ch := make(chan rcv, 1)
+	go func() {
+		conn, err := ln.Accept()
+		if err != nil {
+			ch <- rcv{nil, err}
+			return
+		}
+		defer conn.Close()
+		conn.SetReadDeadline(time.Now().Add(60 * time.Second))
+		buf := make([]byte, total)
+		_, err = io.ReadFull(conn, buf)
+		ch <- rcv{buf, err}
+	}()
+	cl := oneway.NewForVerif(oneway.WithServers([]string{ln.Addr().String()}), oneway.WithLicense(lic), oneway.WithPcode(1))
+	defer cl.Close()
+	g := c.G
+	if g < 2 {
+		g = 2
+	}
+	var wg sync.WaitGroup
+	var gate atomic.Int32
+	errs := make([]error, g)
+	for w := 0; w < g; w++ {
+		wg.Add(1)
+		go func(w int) {
+			defer wg.Done()
+			for gate.Load() == 0 {
+			}
+			for i := w; i < len(items); i += g {
+				if e := cl.Send(items[i].p); e != nil && errs[w] == nil {
+					errs[w] = e
+				}
+			}
+		}(w)
+	}
+	gate.Store(1)
+	wg.Wait()
+	for w, e := range errs {
+		if e != nil {
+			return pbt.Fail("Send from goroutine %d on a healthy loopback connection returned %v", w, e)
+		}
+	}
+	r := <-ch
+	if r.err != nil {
+		return pbt.Fail("%d goroutines sent %d packs (%d bytes of frames); the collector could not read that many bytes: %v", g, len(items), total, r.err)
+	}
+	// the stream must be a concatenation of exactly the reference frames, in any order
+	b := r.b
+	for n := 0; len(b) > 0; n++ {
+		if len(b) < 22 || b[0] != 10 || b[1] != 0 {
+			return pbt.Fail("%d concurrent senders: after %d whole frames the stream does not continue with a frame header (source 10, version 0): …%x", g, n, clip(b, 0))
+		}
+		l := int(b[18])<<24 | int(b[19])<<16 | int(b[20])<<8 | int(b[21])
+		if l < 0 || 22+l > len(b) {
+			return pbt.Fail("%d concurrent senders: frame %d announces %d payload bytes, %d are left", g, n, l, len(b)-22)
+		}
+		f := string(b[:22+l])
+		if want[f] == 0 {
+			return pbt.Fail("%d concurrent senders: frame %d of the stream (%d bytes) is not the reference frame of any pack that was sent, or arrived once too often", g, n, len(f))
+		}
+		want[f]--
+		b = b[22+l:]
+	}
+	return &pbt.Result{NT: len(items) >= 2*g, Classes: []string{fmt.Sprintf("goroutines=%d", g)}}
+}
+
+var specConcFrames = pbt.Register(pbt.Spec[ConcFrameCase]{
+	Prop: "C05", Name: "concurrent-frames",
+	Rule:  "40-600 packs of the covered types are given their reference frames, then sent through ONE one-way client (direct mode) by 2-12 goroutines at the same time to a loopback listener; the byte stream the collector reads must be a concatenation of exactly those reference frames, each once, in any order (header, length and payload of no frame mixed with another's); non-trivial = at least two packs per goroutine; distinct by case",
+	Quick: 30, Thorough: 1200,
+	Draw: func(t *rapid.T) ConcFrameCase {
+		c := ConcFrameCase{G: rapid.IntRange(2, 12).Draw(t, "g")}
+		n := rapid.IntRange(40, 600).Draw(t, "n")
+		for i := 0; i < n; i++ {
+			c.Packs = append(c.Packs, gpack.Case{Type: rapid.SampledFrom(bodyTypes).Draw(t, "type"), Seed: rapid.Uint64().Draw(t, "seed"), Len: rapid.SampledFrom([]int{5, 40, 400}).Draw(t, "len")})
+		}
+		return c
+	},
+	Run: runConcFrames,
+})
+
+func TestConcurrentFrames(t *testing.T) { specConcFrames.Check(t) }
